@@ -24,6 +24,7 @@ mod c06;
 mod c10;
 mod lsp;
 mod c09;
+mod c17;
 
 use std::path::PathBuf;
 
@@ -69,6 +70,7 @@ fn main() {
     "c06" => c06::run(&o),
     "c10" => c10::run(&o),
     "c09" => c09::run(&o),
+    "c17" => c17::run(&o),
     "c05" => c05::run_stream(&o, "c05"),
     "c04" => c05::run_stream(&o, "c04"),
     s => { eprintln!("unknown stream {s}"); std::process::exit(2); }
